@@ -59,6 +59,8 @@ pub struct ConvStep {
 pub enum Step {
     Admin(Admin),
     Conv(ConvStep),
+    /// the worker's thread exits; its next conversion runs on a freshly spawned thread
+    Respawn(usize),
 }
 
 #[derive(Clone, Debug, Serialize, Deserialize)]
@@ -131,6 +133,9 @@ pub fn exec(plan: &Plan) -> Outcome {
     for (i, step) in plan.steps.iter().enumerate() {
         match step {
             Step::Admin(op) => world.lock().apply(op, None),
+            Step::Respawn(w) => {
+                workers.remove(w);
+            }
             Step::Conv(c) => {
                 let first = !workers.contains_key(&c.worker);
                 if first {
